@@ -22,12 +22,13 @@ CONSTANTS Sizes, MaxMsgs,
           OutModes,    \* subset of {"all", "one", "hold"} as in TunImpl
           Compressible,\* TRUE: the Messages' bytes are chosen so that deflating a payload with a non-empty chunk makes it shorter;
                        \* FALSE: so that it never does (then the code sends the payload as it is and clears the level byte)
-          Deviations,  \* "F32"   known finding, modelled as the code is: the level byte of the header is written when the packet is BEGUN
+          Deviations,  \* named deviations from the code as it is (all off by default; each makes an invariant fail: vacuity guards):
+                       \* "F32"   the code as it WAS before repair c677f19: the level byte of the header is written when the packet is BEGUN
                        \*         and cleared IN THE HELD BUFFER when an attempt to deflate does not help, while the payload is deflated
                        \*         according to the level set, and the chunks present, when the packet is finally WRITTEN.  For a packet
                        \*         that was held (Write() returned 0) the two can disagree - the level was changed meanwhile, or deflating
                        \*         began to help after more chunks were added - and then the receiver can use nothing of the packet.
-                       \*         Without "F32": the level byte says what was done to the payload (the drafted repair)
+                       \*         Without "F32" (the code now): the level byte is written with the packet and says what was done to the payload
                        \* "blind" spec mutant: the receiver ignores the level byte
           RECORD, HIST
 
@@ -131,8 +132,8 @@ Spec == Init /\ [][Next]_vars
 TypeOK     == \A s \in Senders : pid[s] \in 0..(PIDSPACE - 1) /\ Len(cnt[s]) = Len(pk[s])
 AbsRefines == [][AbsStep]_<<sent, delivered>>
 WithinMTU  == \A s \in Senders : \A k \in 1..Len(pk[s]) : Written(pk[s][k].chunks) <= mtu /\ pk[s][k].chunks # <<>>
-\* "fits the gateway's limits": the Message fits into a packet of its own (and, while F32 is open, does not travel in a
-\* packet whose level byte disagrees with its payload)
+\* "fits the gateway's limits": the Message fits into a packet of its own (DueStrict, the property as stated; with the
+\* deviation "F32" also: does not travel in a packet whose level byte disagrees with its payload)
 Fits(s, n)   == PH + CH + sent[s][n] <= mtu
 Garbled(s,n) == \E k \in 1..Len(pk[s]) : ((pk[s][k].hl > 0) # pk[s][k].z) /\ \E i \in 1..Len(pk[s][k].chunks) : pk[s][k].chunks[i].n = n
 DueStrict  == [s \in Senders |-> {n \in 1..Len(sent[s]) : Fits(s, n)}]
@@ -144,6 +145,6 @@ Quiet  == AllOut /\ NetEmpty
 Done   == AllOut /\ (\A s \in Senders : Len(sent[s]) = MaxMsgs /\ \A k \in 1..Len(pk[s]) : ~CanTake(s, k))
 PerfectInOrder     == (Faults = {}) => InOrderSoFar(Due)
 PerfectExactlyOnce == (Faults = {} /\ Quiet) => ExactlyOnceInOrder(Due)
-PerfectExactlyOnceStrict == (Faults = {} /\ Quiet) => ExactlyOnceInOrder(DueStrict)    \* the property as stated: fails while F32 is open
+PerfectExactlyOnceStrict == (Faults = {} /\ Quiet) => ExactlyOnceInOrder(DueStrict)    \* the property as stated: fails with the deviation "F32"
 PrintDone == (HIST /\ Done) => PrintT("@@" \o ToJson(hist))
 =============================================================================
